@@ -17,7 +17,7 @@ func init() {
 	vlib.Register(&vlib.Prop{
 		ID:    "C05",
 		Level: "exploration",
-		Cases: func(tier string) int { return vlib.TierN(tier, 960, 24000) },
+		Cases: func(tier string) int { return vlib.TierN(tier, 960, 96000) },
 		Rule: "case i = workload class i%4 {plain, nested publish from the receive loop, Subscribe/cancel churn while publishing, both} x config (i/4)%12 {buffer 0/1/4 x persistent x blocking}; " +
 			"1..4 publishers, subscriptions read by 1..3 consumer goroutines with delayed acks, nack sequences, 'never ack' probes, nested Publish to another topic before acking; yield/delay injection at the gochannel hook points. " +
 			"Monitors: online in-flight counter per subscription (+1 at receive, -1 immediately before the harness calls Ack/Nack; must never exceed 1); blocking mode: every returned Publish call had each active subscription start its Ack before the call returned (logical stamps), " +
